@@ -74,6 +74,7 @@ func counterKey(cc *ssa.CallCommon) (string, bool, bool) {
 
 func runC10(c *Ctx) {
 	defer c10RetryAbort(c)
+	defer c10CounterStepExact(c, "C10.OVF")
 	defer c10RetrySlotReleasedBeforeAdmission(c)
 	defer freshStreamPerTry(c, "C10.PAIR")
 	defer c10CloseSetCrossCheck(c)
@@ -517,23 +518,7 @@ func c10Overflow(c *Ctx, sites []*ctrSite) {
 	})
 	c.Check("C10.OVF", funcKey(fn)+":threshold", fn.Pos(), okCmp && !badCmp, "CanCreate is `current < max`", "CanCreate is not `current < max`: the limit does not trip at its threshold")
 	c.Check("C10.OVF", funcKey(fn)+":zero-unlimited", fn.Pos(), okZero, "max == 0 means unlimited", "CanCreate lost the max == 0 (unlimited) case")
-	for _, m := range []string{"Increase", "Decrease"} {
-		f := c.M("pkg/upstream/cluster", "resource", m)
-		if f == nil {
-			c.Unresolved("C10.OVF", "(*resource)."+m)
-			continue
-		}
-		ok := false
-		forEachInstr(f, false, func(_ *ssa.Function, in ssa.Instruction) {
-			if call, ok2 := in.(*ssa.Call); ok2 && isAtomicCall(call.Common(), "Add") {
-				n, isC := constInt(call.Common().Args[1])
-				if isC && ((m == "Increase" && n == 1) || (m == "Decrease" && n == -1)) {
-					ok = true
-				}
-			}
-		})
-		c.Check("C10.OVF", funcKey(f)+":atomic-step", f.Pos(), ok, m+" is one atomic ±1", m+" is not a single atomic ±1 on the counter")
-	}
+	// the step of Increase/Decrease: counter-step-exact (c10CounterStepExact) accepts an atomic Add or a successful CAS
 }
 
 // guardedByFieldLoadEq: in's block is dominated by the `want` edge of `atomic.Load(&x.<field>) == k` (or a plain load).
@@ -974,5 +959,107 @@ func c10RetrySlotReleasedBeforeAdmission(c *Ctx) {
 	})
 	if n < 1 {
 		c.Unresolved("C10.PAIR", "the retries-breaker query (CanCreate) reachable from retryState.retry")
+	}
+}
+
+// c10CounterStepExact (OVF / C09.R10): one admission moves a breaker counter by exactly one, one release by exactly minus one.
+// The pools and the proxy pair every Increase() with one Decrease() (PAIR). The pairing conserves the books only if the
+// counter itself does what it is told: in (*resource).Increase every path to the return adds exactly 1 to `current`
+// (atomic.AddInt64, or a successful CompareAndSwap from x to x+1), in Decrease exactly -1 - the only path that may skip the
+// step is "this resource is unlimited" (max == 0). A counter that saturates at its threshold or clamps at zero swallows
+// one side of a pair whenever admissions race: the gauge under-counts what is in flight and the limit stops tripping at its
+// threshold.
+func c10CounterStepExact(c *Ctx, rule string) {
+	pkg := "pkg/upstream/cluster"
+	for _, spec := range []struct {
+		name string
+		step int64
+	}{{"Increase", 1}, {"Decrease", -1}} {
+		fn := c.M(pkg, "resource", spec.name)
+		if fn == nil {
+			c.Unresolved(rule, "(*resource)."+spec.name)
+			continue
+		}
+		isCurrent := func(v ssa.Value) bool {
+			_, f, _, ok := fieldAddrInfo(v)
+			return ok && f == "current"
+		}
+		isStep := func(in ssa.Instruction) bool {
+			call, ok := in.(*ssa.Call)
+			if !ok {
+				return false
+			}
+			name := calleeName(call.Common())
+			args := call.Common().Args
+			switch {
+			case strings.HasSuffix(name, "atomic.AddInt64") && len(args) == 2 && isCurrent(args[0]):
+				k, isK := constInt(args[1])
+				return isK && k == spec.step
+			}
+			return false
+		}
+		// a successful CAS(&current, x, x+step): the step happens on the true edge of the call's result
+		casOK := func(from, to *ssa.BasicBlock) bool { return false }
+		_ = casOK
+		unlimitedEdge := func(from, to *ssa.BasicBlock) bool {
+			ifi, ok := from.Instrs[len(from.Instrs)-1].(*ssa.If)
+			if !ok {
+				return false
+			}
+			bo, ok := ifi.Cond.(*ssa.BinOp)
+			if !ok || !isZero(bo.Y) {
+				return false
+			}
+			isMax := false
+			if _, f, _, okf := loadedField(bo.X); okf && f == "max" {
+				isMax = true
+			}
+			if call, okc := bo.X.(*ssa.Call); okc && methodName(call.Common()) == "Max" {
+				isMax = true
+			}
+			if !isMax {
+				return false
+			}
+			switch bo.Op {
+			case token.EQL:
+				return to == from.Succs[0]
+			case token.NEQ:
+				return to == from.Succs[1]
+			}
+			return false
+		}
+		casStepEdge := func(from, to *ssa.BasicBlock) bool {
+			ifi, ok := from.Instrs[len(from.Instrs)-1].(*ssa.If)
+			if !ok || to != from.Succs[0] {
+				return false
+			}
+			call, ok := ifi.Cond.(*ssa.Call)
+			if !ok || !strings.HasSuffix(calleeName(call.Common()), "atomic.CompareAndSwapInt64") || len(call.Common().Args) != 3 || !isCurrent(call.Common().Args[0]) {
+				return false
+			}
+			bo, ok := call.Common().Args[2].(*ssa.BinOp)
+			if !ok || bo.X != call.Common().Args[1] {
+				return false
+			}
+			k, isK := constInt(bo.Y)
+			return isK && ((bo.Op == token.ADD && k == spec.step) || (bo.Op == token.SUB && k == -spec.step))
+		}
+		bad := existsPathEdges(fn, nil, isReturn, isStep, func(from, to *ssa.BasicBlock) bool {
+			return !unlimitedEdge(from, to) && !casStepEdge(from, to)
+		})
+		nstep := len(instrsWhere(fn, isStep))
+		ncas := 0
+		for _, b := range fn.Blocks {
+			for _, s := range b.Succs {
+				if casStepEdge(b, s) {
+					ncas++
+				}
+			}
+		}
+		pos := fn.Pos()
+		if bad != nil {
+			pos = nearestPos(bad)
+		}
+		c.Check(rule, funcKey(fn)+":counter-step-exact", pos, bad == nil && nstep+ncas >= 1, fmt.Sprintf("every path changes `current` by %+d, except for an unlimited resource", spec.step), fmt.Sprintf("(*resource).%s can return without changing the counter by %+d although the resource is limited (a saturating or clamping counter): when admissions race past CanCreate one side of an Increase/Decrease pair is swallowed, the gauge under-counts what is in flight and the limit admits more than its threshold", spec.name, spec.step))
 	}
 }
